@@ -590,6 +590,103 @@ func TestC03Wire(t *testing.T) {
 	})
 }
 
+// TestC03UndecodableBody: a data message with valid HSMS framing whose body is not valid SECS-II is
+// a legitimate thing to receive (the body is decoded lazily). Every message derived from it without
+// replacing the item keeps the received body bytes AND keeps reporting that they do not decode -
+// what a message serializes and what its Item() says must never drift apart.
+func TestC03UndecodableBody(t *testing.T) {
+	ev.Rule("frames with a drawn header and a body that the E5 reference rejects (truncated item, length overrunning the frame, unknown format code, zero length-byte count), decoded by DecodeHSMSMessage / DecodeHSMSPayload, then 0-3 derivation steps without a new item (WithSessionID, WithSystemBytes, WithID, Derive().With<header fields>().Build()); oracle: every message of the chain serializes to its header over its own body, and that body is either the received bytes together with a decode error from Item() / DecodeErr(), or exactly the encoding of the item it reports without error (Derive documents a fall-back to an empty item); Derive().Build() may also refuse with an error; non-trivial = at least one derivation step")
+	vt.Check(t, 4000, 200000, func(rt *rapid.T) {
+		var body []byte
+		switch rapid.IntRange(0, 3).Draw(rt, "garbage") {
+		case 0: // ASCII item claiming more bytes than follow
+			n := rapid.IntRange(1, 40).Draw(rt, "have")
+			body = append([]byte{0x41, byte(n + 1 + rapid.IntRange(0, 100).Draw(rt, "missing"))}, bytes.Repeat([]byte{'x'}, n)...)
+		case 1: // list claiming children that are not there
+			body = []byte{0x01, byte(rapid.IntRange(1, 200).Draw(rt, "children"))}
+		case 2: // unknown format code
+			body = []byte{0x3d, 0x01, 0x00}
+		default: // zero length-byte count
+			body = []byte{0x40, 0x00}
+		}
+		if _, _, err := e5.Decode(body); err == nil {
+			return // (not garbage after all)
+		}
+		stream, function := byte(rapid.IntRange(0, 127).Draw(rt, "stream")), byte(rapid.IntRange(0, 255).Draw(rt, "function"))
+		wbit := function%2 == 1 && rapid.Bool().Draw(rt, "w")
+		session, sys := genHeaderWord16(rt, "session"), genHeaderWord32(rt, "sys")
+		frame := e37.DataFrame(session, stream, function, wbit, sys, body).Bytes()
+		var cur *hsms.DataMessage
+		if rapid.Bool().Draw(rt, "payloadEntry") {
+			d, err := hsms.DecodeHSMSPayload(frame[4:])
+			if err != nil {
+				rt.Fatalf("C03 violated: a well-framed message with an undecodable body was rejected at the frame level: %v", err)
+			}
+			cur, _ = d.ToDataMessage()
+		} else {
+			d, err := hsms.DecodeHSMSMessage(frame)
+			if err != nil {
+				rt.Fatalf("C03 violated: a well-framed message with an undecodable body was rejected at the frame level: %v", err)
+			}
+			cur, _ = d.ToDataMessage()
+		}
+		check := func(m *hsms.DataMessage, how string) {
+			// self-consistency: the frame is [length][header][what AppendBodyTo returns] for THIS message's
+			// header, and the body is either the received bytes together with a decode error, or exactly
+			// the encoding of the item the message reports (Derive documents a fall-back to an empty item
+			// for a malformed source body: then the derived message must serialize an empty body)
+			mb := m.AppendBodyTo(nil)
+			want := e37.DataFrame(session, stream, function, wbit, sys, mb).Bytes()
+			if got := m.ToBytes(); !bytes.Equal(got, want) {
+				rt.Fatalf("C03 violated: %s of a message with an undecodable body serializes to %x, its header over its own body is %x", how, trunc(got), trunc(want))
+			}
+			it, ierr := m.Item()
+			if ierr != nil || m.DecodeErr() != nil {
+				if !bytes.Equal(mb, body) {
+					rt.Fatalf("C03 violated: %s reports a decode error but no longer carries the received body (%x, received %x)", how, trunc(mb), body)
+				}
+				return
+			}
+			var ib []byte
+			if it != nil && !it.IsEmpty() {
+				ib = it.ToBytes()
+			}
+			if !bytes.Equal(ib, mb) {
+				rt.Fatalf("C03 violated: %s reports the item %x without any error, but serializes the body %x: what a message says and what it sends have drifted apart", how, ib, trunc(mb))
+			}
+		}
+		check(cur, "the decoded message")
+		steps := rapid.IntRange(0, 3).Draw(rt, "steps")
+		for i := 0; i < steps; i++ {
+			switch rapid.IntRange(0, 3).Draw(rt, "step") {
+			case 0:
+				session = genHeaderWord16(rt, "s2")
+				cur = cur.WithSessionID(session)
+				check(cur, "WithSessionID")
+			case 1:
+				sys = genHeaderWord32(rt, "y2")
+				cur = cur.WithSystemBytes(sysArr(sys))
+				check(cur, "WithSystemBytes")
+			case 2:
+				sys = genHeaderWord32(rt, "y3")
+				cur = cur.WithID(sys)
+				check(cur, "WithID")
+			default:
+				ns, ny := genHeaderWord16(rt, "s3"), genHeaderWord32(rt, "y4")
+				der, err := cur.Derive().WithSessionID(ns).WithSystemBytes(sysArr(ny)).Build()
+				if err != nil {
+					continue // refusing to derive from an undecodable message is a clean outcome
+				}
+				session, sys, cur = ns, ny, der
+				check(cur, "Derive().WithSessionID().WithSystemBytes().Build()")
+			}
+		}
+		ev.Case(steps > 0, fmt.Sprintf("%x|%d|%d|%d", body, stream, function, steps), func() any {
+			return fmt.Sprintf("body %x, S%dF%d, %d derivation steps", body, stream, function, steps)
+		}, "c03:undecodable")
+	})
+}
+
 // TestC03Concurrent: the FIRST serialization of a message happens on several goroutines at once -
 // the message itself and re-stamped copies that share its body. Every goroutine must get exactly the
 // reference frame of ITS header (built with -race: an unsynchronized encode-once is reported even
